@@ -89,18 +89,48 @@ CHECKS["C11"] = dict(
    ref="§6 C11")
 
 CHECKS["C01"] = dict(
-   technique="contract-based deductive verification: fvm1d.rhs executed symbolically from the ast (symbolic ncell, abstract "
-             "monotone mesh); numflux through its contract (pointwise/consistent/wall, opaque result arrays + on-demand "
-             "instances); sum-induction (telescoping) lemma; z3",
+   technique="contract-based deductive verification: fvm1d.rhs and fvm2dcart.rhs executed symbolically from the ast (symbolic "
+             "ncell / nx, ny; abstract monotone mesh; parallel-map loop rule for the 2-D row loops); numflux through its "
+             "contract (pointwise/consistent/wall, opaque result arrays + on-demand instances); sum-induction (telescoping) "
+             "lemma; z3",
    text="Proof for all cell data, all strictly increasing face distributions, symbolic number of cells, every 1-D model x "
         "reconstruction (all limiters) x boundary pair {periodic, sym, dirichlet, inlet/outlet}: per-cell flux balance "
         "res*vol = -(F[i+1]-F[i]); the volume integral of every conserved variable changes by F[0]-F[n] only; it is "
         "invariant for periodic closure (both end faces see the same states) and, for mass and energy/depth, between two "
-        "slip walls; every registered flux body is pointwise (the contract's frame). Integrator part: see C05/C06 normal forms.",
+        "slip walls; every registered flux body is pointwise (the contract's frame). 2-D Cartesian operator (euler2d, "
+        "extrapol2d1 and extrapol2dk with symbolic kappa, symbolic nx, ny, lx, ly, {per, sym} on each pair of sides): the flux "
+        "array has (nx+1)ny + nx(ny+1) entries, per-cell balance res*dx*dy = -dy(Fx[i+1]-Fx[i]) - dx(Fy[j+1]-Fy[j]) at a "
+        "generic cell, the two faces of a periodic pair see the same states, no mass/energy flux through a wall face. "
+        "Integrator part: see C05/C06 normal forms.",
    note=TB + "; mesh contract (C20) as hypothesis; flux contract clauses proved in C02/C16; floating-point intermediates "
-        "assumed finite (no safety obligations here: unlimited reconstructions may give inadmissible face states); 2-D "
-        "operator pending the 2-D loop machinery.",
+        "assumed finite (no safety obligations here: unlimited reconstructions may give inadmissible face states); 2-D: the "
+        "double telescoping sum over rows and columns is the sum-induction lemma applied twice (schema trusted, premises "
+        "discharged).",
    ref="§6 C01")
+
+CHECKS["C15"] = dict(
+   technique="contract-based deductive verification, relational and modular: leaf contracts on the real 2-D flux bodies "
+             "(transposition, normal / tangential reflection, reduction to the 1-D flux of the same name), on the real 2-D "
+             "boundary conditions and on cons2prim (commutation with the three maps, pointwise, reduction to 1-D); "
+             "fvm2dcart.rhs executed symbolically on a problem and on its image (and fvm1d.rhs for the 1-D comparison) with "
+             "numflux, namedBC and cons2prim through those contracts, instantiated between the logged calls; staged ghost "
+             "lemmas on the face states; z3/cvc5 + product-abstraction tier",
+   text="Proof for all admissible data, symbolic nx, ny >= 1, lx, ly > 0, symbolic kappa, gamma: (leaves) centered and hlle "
+        "satisfy F(tW_L,tW_R;e_y) = tF(W_L,W_R;e_x), F(R W_R,R W_L;n) = -R F(W_L,W_R;n) for the reflection normal to the face, "
+        "F(R W_L,R W_R;n) = R F(W_L,W_R;n) for the tangential one, and equal the 1-D flux of the same name for states without "
+        "transverse velocity (zero transverse momentum flux); sym/insub/insup/outsub/outsup commute with transposition and both "
+        "reflections on all four sides, are pointwise along the boundary and reduce to the 1-D condition; cons2prim likewise. "
+        "(operator) at a generic cell the residual of the transposed / x-reflected / y-reflected problem (grid, data, boundary "
+        "tags moved accordingly) is the image of the residual, for extrapol2d1 and extrapol2dk(kappa) and periodic, wall, "
+        "subsonic and supersonic inlet/outlet closures; for data constant along y (x) with zero transverse velocity the 2-D "
+        "residual equals fvm1d's residual (extrapol1 / extrapolk(kappa), same flux name, same end conditions, uniform mesh of "
+        "the same cell size) row by row (column by column) and the transverse momentum residual vanishes, with periodic or wall "
+        "closure across. Quick tier: representative closures; thorough: all listed ones.",
+   note=TB + "; 'data that do not vary along one direction' is read with zero transverse velocity; insup with an explicit "
+        "'angle' is not covered; euler2d's inherited hllc/centeredmassflow (ignore the face normal) excluded as in C02; the "
+        "statement is about the operator (observe_at: rhs): integrators/driver by the normal forms of C05-C07 (the 2-D time "
+        "step dx*dy/(dx+dy) is symmetric in dx, dy: C18).",
+   ref="§6 C15")
 
 CHECKS["C19"] = dict(
    technique="contract-based deductive verification: fvm1d.rhs executed symbolically twice (with / without sources) from "
